@@ -651,6 +651,86 @@ CONTRACTS[f"{PP}._build_production_names"].runtime = Runtime(names_cases, lambda
 
 
 # =====================================================================================================
+# string methods the engine does not have (notes/C11.requests.md R4; the engine worker asked for them to live here for now)
+from pyvc import models as _models  # noqa: E402
+
+_hex04 = z3.Function("fmt_04X", z3.IntSort(), z3.StringSort())  # the engine's symbol for "%04X" % n: the same library function
+_S2 = (z3.StringSort(), z3.StringSort())
+_rsplit_head, _rsplit_tail = z3.Function("str_rsplit1_head", *_S2, z3.StringSort()), z3.Function("str_rsplit1_tail", *_S2, z3.StringSort())
+_split_head, _split_tail = z3.Function("str_split1_head", *_S2, z3.StringSort()), z3.Function("str_split1_tail", *_S2, z3.StringSort())
+_split_all = z3.Function("str_split", *_S2, z3.SeqSort(z3.StringSort()))
+
+
+def _c11_str_method(ex, st, recv, name, args, kwargs, node):
+    """Python semantics of three str methods, for the engine (None = not mine):
+    * `"..{}..{:04X}..".format(a, n)`: literal text, `{}` of a str (the str) or an int (its decimal form), `{:04X}` of an int
+      (the library function `fmt_04X`, the same symbol the engine uses for `"%04X" % n`; nothing but functionality is known);
+    * `s.rsplit(sep, 1)` / `s.split(sep, 1)` (constant non-empty sep): `[s]` when sep does not occur in s, otherwise `[a, b]`
+      with `s == a + sep + b` and sep not in b (rsplit: the LAST occurrence) / not in a (split: the FIRST) — a and b are
+      functions of (s, sep), so that clauses can name them by writing the same call;
+    * `s.split(sep)`: a function of (s, sep) with at least one part; exactly `[s]` when sep does not occur, at least two parts when it does."""
+    if kwargs:
+        return None
+    if name == "format" and is_const(recv) and isinstance(recv.py, str) and not all(is_const(a) for a in args):
+        import string
+
+        parts, k = [], 0
+        for lit, field, spec, conv in string.Formatter().parse(recv.py):
+            if lit:
+                parts.append(z3.StringVal(lit))
+            if field is None:
+                continue
+            if field != "" or conv is not None or spec not in ("", "04X") or k >= len(args):
+                raise Unsupported(f"str.format template {recv.py!r}: only '{{}}' and '{{:04X}}' fields are modelled", node)
+            a = ex.deopt(args[k], st, node)
+            k += 1
+            if spec == "04X":
+                if a.ty != INT:
+                    raise Unsupported(f"'{{:04X}}'.format({a.ty})", node)
+                parts.append(_hex04(lift(a, INT)))
+            elif a.ty == STR:
+                parts.append(lift(a, STR))
+            elif a.ty == INT and not a.is_py:
+                parts.append(z3.IntToStr(lift(a)) if False else ex.to_str(a, node).term)
+            else:
+                raise Unsupported(f"'{{}}'.format({a.ty})", node)
+        if k != len(args):
+            raise Unsupported("str.format arity", node)
+        return Val(STR, z3.Concat(*parts) if len(parts) > 1 else parts[0]) if parts else Val.const("")
+    recv = ex.deopt(recv, st, node)
+    if recv.ty == STR and name in ("rsplit", "split") and args and is_const(args[0]) and isinstance(args[0].py, str) and args[0].py and not (is_const(recv) and all(is_const(a) for a in args)):
+        s, sep = lift(recv, STR), z3.StringVal(args[0].py)
+        has = z3.Contains(s, sep)
+        if len(args) == 2 and is_const(args[1]) and args[1].py == 1:
+            hf, tf = (_rsplit_head, _rsplit_tail) if name == "rsplit" else (_split_head, _split_tail)
+            a, b = hf(s, sep), tf(s, sep)
+            st.assume(z3.Implies(has, z3.And(s == z3.Concat(a, sep, b), z3.Not(z3.Contains(b if name == "rsplit" else a, sep)))))
+            return Val(List(STR), z3.If(has, z3.Concat(z3.Unit(a), z3.Unit(b)), z3.Unit(s)))
+        if len(args) == 1 and name == "split":
+            r = _split_all(s, sep)
+            st.assume(z3.Length(r) >= 1)
+            st.assume(z3.Implies(z3.Not(has), r == z3.Unit(s)))
+            st.assume(z3.Implies(has, z3.Length(r) >= 2))
+            return Val(List(STR), r)
+        raise Unsupported(f"str.{name} with these arguments", node)
+    return None
+
+
+if not getattr(_models.value_method, "_c11_shim", False):
+    _engine_value_method = _models.value_method
+
+    def _value_method(ex, st, recv, name, args, kwargs, node):
+        if name in ("format", "rsplit", "split"):
+            r = _c11_str_method(ex, st, recv, name, args, kwargs, node)
+            if r is not None:
+                return r
+        return _engine_value_method(ex, st, recv, name, args, kwargs, node)
+
+    _value_method._c11_shim = True
+    _models.value_method = _value_method
+
+
+# =====================================================================================================
 # _build_production_name, the lib-supplied case (public.postscriptNames present and non-empty)
 
 contract(
